@@ -203,7 +203,13 @@ func checkC09(sc *Scenario, t *Truth) []Violation {
 				if st.Status == "Restarting" {
 					// a back-off wait that the policy still owes is something left to wait for
 					insts := t.ByRep[name]
-					if p := sc.specOfReplica(name); p != nil && len(insts) > 0 && restartOwed(p, insts[len(insts)-1].Code, 0) {
+					shutDown := false
+					for _, c := range t.Calls {
+						if c.Op == "shutdown" && c.RetSeq >= 0 {
+							shutDown = true // after a project shutdown nothing is relaunched
+						}
+					}
+					if p := sc.specOfReplica(name); p != nil && len(insts) > 0 && restartOwed(p, insts[len(insts)-1].Code, 0) && !shutDown {
 						continue
 					}
 				}
